@@ -33,6 +33,11 @@ structure DSt where
   ok : Bool := true
   live : Bool := false     -- a deployment reused a live node process (finding D39): deviations are attributed to it
   echo : Bool := false     -- after the first such deviation the model state no longer describes the cluster
+  op : List String := []   -- the schedule op whose events are being replayed
+  paused : Bool := false   -- the schedule stopped the readers
+  ckReq : Bool := false    -- at the start of a `ckpt` op: deployed, nothing pending, nobody dead ⇒ the round must complete
+  tSeen : Bool := false    -- a checkpoint was started during the current op
+  prePend : Bool := false  -- a checkpoint was pending when the current op began
 
 def keyBytes (k : Nat) : Bytes := (0x6b : UInt8) :: (toString k).toList.map (fun c => UInt8.ofNat c.toNat)
 
@@ -90,6 +95,35 @@ def cutString (d : DSt) (r : Nat) : String :=
   let l := ((List.range d.nsplits).filter fun sp => d.cfg.assign d.s.n sp == r).map fun sp => s!"{sp}={d.s.cursor sp}"
   if l.isEmpty then "-" else joinWith "," l
 
+/-- nothing the schedule did can keep the cluster from draining: deployed, no checkpoint pending (a parked
+acknowledgement blocks its runner / operator), nobody dead, readers not paused -/
+def mustDrain (d : DSt) : Bool :=
+  0 < d.s.n && d.s.pending.isNone && d.s.dead.isEmpty && !d.paused
+
+/-- answer to the bounded wait of `wait` / `probe`: `Q` iff the model is quiescent; a model that is not quiescent
+although nothing can block it means records were read (or fed) and never handled: a stall / loss, not `NQ` -/
+def waitAnswer (d : DSt) : String :=
+  if quiescentB d then "Q" else if mustDrain d then "STALLED(records-fed-or-read-but-not-handled)" else "NQ"
+
+/-- answer to the result token of a whole checkpoint round -/
+def ckptAnswer (d : DSt) : String :=
+  if 0 < d.s.n && (d.tSeen || d.prePend) && d.s.pending.isNone then "done"
+  else if d.ckReq && d.s.dead.isEmpty then "CHECKPOINT-STALLED" else "incomplete"
+
+/-- `rack` / `oack` / `pub` found nothing parked although the model has the corresponding step enabled -/
+def ackExpected (d : DSt) : Bool :=
+  match d.op.head? with
+  | some "rack" => match d.s.pending with
+    | some p => d.s.dead.isEmpty && (List.range d.s.n).any (fun r => !p.rAck.contains r)
+    | none => false
+  | some "oack" => match d.s.pending with
+    | some p => d.s.dead.isEmpty && (List.range d.s.n).all (fun r => p.rAck.contains r)
+        && (List.range d.s.n).any (fun o => !p.oAck.contains o)
+    | none => false
+  | some "pub" => !d.s.writing.isEmpty
+  | some "restartpub" => !d.s.writing.isEmpty
+  | _ => false
+
 /-- replay one event token; answer = the token the model agrees with -/
 def applyTok (d : DSt) (tok : String) : DSt × String :=
   let bad (why : String) : DSt × String := ({ d with ok := false }, s!"DISABLED({tok}:{why})")
@@ -119,7 +153,7 @@ def applyTok (d : DSt) (tok : String) : DSt × String :=
     | ["t", id] =>
       if d.s.nextId ≠ natOr id then bad s!"next-id-is-{d.s.nextId}"
       else match act d .start with
-        | some (d', _) => (d', tok)
+        | some (d', _) => ({ d' with tSeen := true }, tok)
         | none => bad "a-checkpoint-is-pending"
     | ["b", r, id, cs] =>
       let r := natOr r
@@ -158,7 +192,8 @@ def applyTok (d : DSt) (tok : String) : DSt × String :=
       match act d (.restart (natOr n) (j == "j")) with
       | some (d', _) =>
         let cs := joinWith "." ((List.range d.nsplits).map fun sp => toString (d'.s.cursor sp))
-        (d', s!"R:{n}:{ck}:{cs}:{j}")
+        -- every process of this deployment is new: no loop of an earlier deployment is left in it
+        ({ d' with live := false }, s!"R:{n}:{ck}:{cs}:{j}")
       | none => bad "restart"
     | ["L", n, _ck, _cs, j] =>
       let ck := match newest d.s.published with
@@ -169,10 +204,22 @@ def applyTok (d : DSt) (tok : String) : DSt × String :=
         let cs := joinWith "." ((List.range d.nsplits).map fun sp => toString (d'.s.cursor sp))
         ({ d' with live := true }, s!"L:{n}:{ck}:{cs}:{j}")
       | none => bad "redeploy"
-    | ["Q"] => (d, if quiescentB d then "Q" else "NQ")
-    | ["NQ"] => (d, if quiescentB d then "Q" else "NQ")
+    | ["x", w] =>
+      match act d (.kill (natOr w)) with
+      | some (d', _) => (d', tok)
+      | none => bad "kill"
+    | ["Q"] => (d, waitAnswer d)
+    | ["NQ"] => (d, waitAnswer d)
+    | ["done"] => (d, ckptAnswer d)
+    | ["incomplete"] => (d, ckptAnswer d)
+    | ["none"] => (d, if ackExpected d then s!"STALLED({joinWith "-" d.op}:the-model-has-this-step-enabled)" else "none")
+    | ["NOTRUNNING"] =>
+      -- a deployment onto fresh processes must complete; one that races with the survivors' own shutdown may fail
+      (d, if d.op.head? == some "restartlive" || d.op == ["killjob", d.op.getD 1 "", "0"] || !d.s.dead.isEmpty
+          then "NOTRUNNING" else "DEPLOYMENT-STALLED")
     | _ =>
-      if t == "-" || t == "none" || t == "noparked" || t == "NOTRUNNING" || t == "nosuch" || t == "dead" || t == "kj" || t.startsWith "z" then (d, t)
+      if t == "-" || t == "noparked" || t == "nosuch" || t == "dead" || t == "kj" || t == "settled"
+          || t.startsWith "survivors" || t.startsWith "z" then (d, t)
       else bad "no-such-step"
   | _ => bad "unknown"
 
@@ -187,22 +234,38 @@ def applyToks (d : DSt) : List String → List String → DSt × List String
 def splitAt2 (ws : List String) : List String × List String :=
   (ws.takeWhile (· ≠ "##"), (ws.dropWhile (· ≠ "##")).drop 1)
 
+/-- deviations a loop left over from an earlier deployment can cause (finding D39): wrong order / duplicates /
+stale state at the handler, an operator checkpoint that is not aligned, a runner cut that does not match, a stall -/
+def d39Kind (tok : String) : Bool :=
+  tok.startsWith "d:" || tok.startsWith "c:" || tok.startsWith "b:" || tok == "Q" || tok == "NQ" ||
+  tok == "done" || tok == "incomplete" || tok == "none"
+
+def firstDiff : List String → List String → Option String
+  | a :: as, b :: bs => if a = b then firstDiff as bs else some a
+  | a :: _, [] => some a
+  | [], _ => none
+
 def step' (d : DSt) (ws : List String) : DSt × String :=
   let (op, toks) := splitAt2 ws
   if d.echo then (d, joinWith " " (if op == ["end"] then ["ok"] else toks)) else
   if !d.ok then (d, "desync") else
   let d := match op with
     | "feed" :: sp :: ks :: _ => { d with fed := d.fed.modify (natOr sp) (· + (ks.splitOn ",").length) }
-    | "probe" :: _ => (List.range d.nkeys).foldl (fun (d : DSt) k => { d with fed := d.fed.modify (k % d.nsplits) (· + 1) }) d
+    | "probe" :: _ => (List.range d.nkeys).foldl (fun (d : DSt) k => { d with fed := d.fed.modify (k % d.nsplits) (· + 1) })
+        { d with paused := false }
+    | ["pause"] => { d with paused := true }
+    | ["resume"] => { d with paused := false }
     | _ => d
+  let d := { d with op := op, tSeen := false, prePend := d.s.pending.isSome, ckReq := 0 < d.s.n && d.s.pending.isNone && d.s.dead.isEmpty }
   match op with
-  | ["end"] => (d, if !quiescentB d || exactlyOnceB d then "ok" else "exactly-once-violated")
+  | ["end"] =>
+    (d, if !quiescentB d then "not-quiescent" else if exactlyOnceB d then "ok" else "exactly-once-violated")
   | _ =>
     let (d', out) := applyToks d toks []
     let line := joinWith " " out
     -- model of the code as it is after a live redeploy: whatever the implementation did; the spec side is the
-    -- fresh-process model. The first deviation is reported as the known finding.
-    if d'.live && line != joinWith " " toks then
+    -- fresh-process model. Only the first deviation of a kind a stale loop can cause is the known finding.
+    if d'.live && line != joinWith " " toks && ((firstDiff toks out).map d39Kind).getD false then
       ({ d' with echo := true }, joinWith " " toks ++ " #spec " ++ line ++ " #kf D39")
     else (d', line)
 
